@@ -596,7 +596,15 @@ def ser(o):
         for a, n in atoms.items():
             if o is a or o == a:
                 return ['const', n]
-    return ['app', o.func.__name__] + [ser(a) for a in o.args]
+    args = [ser(a) for a in o.args]
+    if o.func.__name__ in ('And', 'Or', 'Xor', 'Max', 'Min', 'Equality', 'Unequality'):     # sets / symmetric: .args order is not canonical
+        args.sort(key=lambda x: json_key(x))
+    return ['app', o.func.__name__] + args
+
+
+def json_key(x):
+    import json
+    return json.dumps(x)
 
 
 def sympy_value(expr, i):
